@@ -1459,3 +1459,54 @@ func c11ReaperSparesHeldBuckets(c *Check, rule string) {
 		c.Hold(rule, "BucketSet:no-removal", token.NoPos, true, "")
 	}
 }
+
+// ---- C19.R16: a connection given to the pool is never simply dropped.
+// pool.Return owns the connection it is handed: on every path it is either put into a bucket (channel send) or closed.
+// The early return for a pool that was shut down dropped it – no QUIT, the socket stays open until the process ends or
+// the peer times out: a delivery still running while the target is closed leaks its connection.
+func c19ReturnOwnsConn(c *Check, rule string) {
+	c.Rule(rule, "pool.Return: on every path the connection parameter is stored into a bucket or closed (a connection handed to the pool – also to a pool that was shut down meanwhile – is never left open and unreferenced)", 1)
+	r := c.need(rule, poolRel, "P", "Return")
+	if r == nil {
+		return
+	}
+	info := r.Info
+	var connP types.Object
+	sig := r.FI.Obj.Type().(*types.Signature)
+	for i := 0; i < sig.Params().Len(); i++ {
+		if _, isIface := sig.Params().At(i).Type().Underlying().(*types.Interface); isIface {
+			connP = sig.Params().At(i)
+		}
+	}
+	if connP == nil {
+		c.Fail(rule, "Return:param", r.FI.Decl.Pos(), "undecided: no connection parameter")
+		return
+	}
+	disposes := func(pt Pt) bool {
+		n := pt.Node()
+		if n == nil {
+			return false
+		}
+		if _, isDefer := n.(*ast.DeferStmt); isDefer {
+			return false
+		}
+		found := false
+		ast.Inspect(n, func(x ast.Node) bool {
+			switch s := x.(type) {
+			case *ast.SendStmt:
+				if objOf(info, s.Value) == connP {
+					found = true
+				}
+			case *ast.CallExpr:
+				if methodName(s) == "Close" && recvObj(info, s) == connP {
+					found = true
+				}
+			}
+			return !found
+		})
+		return found
+	}
+	// the select's send case: go/cfg puts the comm clause's statement into the case block
+	path, found := r.F.Reach(Query{From: r.Entry(), Inclusive: true, Target: r.F.IsExitPt, Avoid: disposes})
+	c.Hold(rule, "Return:stored-or-closed", r.FI.Decl.Pos(), !found, "Return can end without having stored or closed the connection ("+r.F.Describe(path)+"): the connection stays open and nothing refers to it any more")
+}
